@@ -393,13 +393,20 @@ def real_readc(nets, tmp):
              [[port.pins.index(q) for q in w.pins] for w in c.wires]) for c in d.cables]
 
 
-def check_bus(rng, n_cases, tmp):
+def harness_emit(ident, name, lower, array, wires):
+    """the writer's convention, re-stated in the harness (used when only the READER is under test)"""
+    if len(wires) == 1 and not array:
+        return [(ident, name, wires[0])]
+    return [('%s_%d_' % (ident, lower + k), '%s[%d]' % (name, lower + k), w) for k, w in enumerate(wires)]
+
+
+def check_bus(rng, n_cases, tmp, real_writer=True):
     lines, impl = [], []
     stats = {'scalar': 0, 'bus': 0, 'scrambled': 0, 'subset': 0}
     for c in range(n_cases):
         ident, name, lower, array, wires = gen_cable(rng)
         stats['bus' if (array or len(wires) > 1) else 'scalar'] += 1
-        nets = real_emit(ident, name, lower, array, wires)
+        nets = real_emit(ident, name, lower, array, wires) if real_writer else harness_emit(ident, name, lower, array, wires)
         wtok = ' '.join('%d %s' % (len(w), ' '.join(map(str, w))) if w else '0' for w in wires)
         lines.append('emit %s %s %d %d %d %s' % (tok_of_s(ident), tok_of_s(name), lower, 1 if array else 0, len(wires), wtok))
         impl.append(net_tokens(nets))
@@ -542,3 +549,64 @@ def check_tokens_of_file(text, limit=200000):
     if m != mine:
         return [{'mechanism': 'tokenizer-on-file', 'command': 'tok <%d chars>' % len(text), 'model': m[:200], 'implementation': mine[:200]}]
     return []
+
+
+# ---- all nets of one cell through the real reader ---------------------------------------------
+NET_BASES = ['x', 'X', 'y', 'bus', 'x_1', 'n']
+
+
+def gen_cell_nets(rng):
+    """nets of one cell in file order, with the collisions the reader has to sort out: bits of
+    several buses interleaved, scalars named like a bus or like a bit, identifiers differing only
+    in case, duplicate bits, renamed nets whose name is another net's identifier. No * or ?."""
+    nets = []
+    used_ident = set()
+    pin = [0]
+
+    def pins():
+        k = rng.choice([0, 1, 1, 2])
+        out = list(range(pin[0], pin[0] + k))
+        pin[0] += k
+        return out
+    for _ in range(rng.choice([1, 2, 3, 4, 6])):
+        base = rng.choice(NET_BASES)
+        r = rng.random()
+        if r < 0.5:
+            name = base if rng.random() < 0.7 else rng.choice(['my ' + base, base + '.q', '\\' + base, '\\' + base + ' '])
+            lo = rng.choice([0, 1, 4])
+            for i in rng.sample(range(lo, lo + 4), rng.choice([1, 2, 3])):
+                nets.append(('%s_%d_' % (base, i), '%s[%d]' % (name, i), pins()))
+        elif r < 0.75:
+            nets.append((base, base if rng.random() < 0.6 else rng.choice(['[3:0]' + base, base + '[2]', 'other'])  , pins()))
+        elif r < 0.9:
+            i = rng.choice([0, 2])
+            nets.append(('%s_%d_' % (base, i), rng.choice(['%s_%d_' % (base, i), 'plain', '%s[%d]' % (base, i + 1)]), pins()))
+        else:
+            nets.append((rng.choice(['&_' + base + '_0_', '&' + base + '_0_']), base + '[0]', pins()))
+    if rng.random() < 0.5:
+        rng.shuffle(nets)
+    return nets
+
+
+def check_nets(rng, n_cases, tmp):
+    lines, impl = [], []
+    stats = {'accepted': 0, 'rejected': 0, 'cables': 0}
+    for c in range(n_cases):
+        nets = gen_cell_nets(rng)
+        try:
+            cabs = real_readc(nets, tmp)
+            stats['accepted'] += 1
+            stats['cables'] += len(cabs)
+            parts = [str(len(cabs))]
+            for nm, idt, lo, arr, ws in cabs:
+                flat = ' '.join('%d %s' % (len(w), ' '.join(map(str, w))) if w else '0' for w in ws)
+                parts.append('%s %s %d %d %d %s' % (tok_of_s(nm), tok_of_s(idt), lo, arr, len(ws), flat))
+            res = ' '.join(parts)
+        except (IndexError, StopIteration, RuntimeError) as e:
+            # RuntimeError: generator raised StopIteration is not expected here; IndexError / StopIteration are the modelled ones
+            stats['rejected'] += 1
+            res = 'none'
+        lines.append('readnets ' + net_tokens(nets))
+        impl.append(res)
+    n, bad = _cmp(lines, impl, 'nets')
+    return n, bad, stats
